@@ -320,18 +320,18 @@ Definition max_len (vs : list voice) : Z :=
 
 (* duration = gap to the next sounding event (rests are absorbed by the event before them; a leading
    rest is not represented in the returned sequences); last event: its longest voice *)
+Definition cons_event (vs : list voice) (d : Z) (r : rresult) : rresult :=
+  match vs with
+  | [v] => mkR (One (v_pitch v) :: r_note r) (One (v_vel v) :: r_amp r)
+               (One (v_len v, d) :: r_gate r) (d :: r_dur r)
+  | _ => mkR (Many (map v_pitch vs) :: r_note r) (Many (map v_vel vs) :: r_amp r)
+             (Many (map (fun v => (v_len v, d)) vs) :: r_gate r) (d :: r_dur r)
+  end.
 Fixpoint expected_from (gs : list (Z * list voice)) : rresult :=
   match gs with
   | [] => mkR [] [] [] []
   | (o, vs) :: rest =>
-      let d := match rest with (o', _) :: _ => o' - o | [] => max_len vs end in
-      let r := expected_from rest in
-      match vs with
-      | [v] => mkR (One (v_pitch v) :: r_note r) (One (v_vel v) :: r_amp r)
-                   (One (v_len v, d) :: r_gate r) (d :: r_dur r)
-      | _ => mkR (Many (map v_pitch vs) :: r_note r) (Many (map v_vel vs) :: r_amp r)
-                 (Many (map (fun v => (v_len v, d)) vs) :: r_gate r) (d :: r_dur r)
-      end
+      cons_event vs (match rest with (o', _) :: _ => o' - o | [] => max_len vs end) (expected_from rest)
   end.
 Definition expected (es : list event) : rresult := expected_from (sounding es 0).
 
